@@ -25,6 +25,8 @@ CONSTANTS Slots, Types, ExtChoices, Vals, MaxOps, AssignImpl, WM,
           Ops,     \* the operations enabled in this configuration (subset of AllOps)
           ConstructSlots, \* slots in which Construct may be used (bounds who is addressed, not only how many)
           Unbounded,      \* TRUE: no bound on the history length; freed block ids are recycled so that the state space is finite
+          Canon,          \* TRUE: symmetry breaking - a new field object is only ever created in the lowest-numbered dead slot
+          LinK,           \* length of the per-object lineage ghost (0 = off), see Lin below
           ViewIds         \* identifiers of long-lived views (field_view objects kept across operations); {} = none
 
 \* Types is a set of layout names; a field type is (layout, dimensionality of its extents)
@@ -34,7 +36,15 @@ BlkIds == IF Unbounded THEN 1..(Cardinality(Slots) + 2) ELSE 1..(3 * MaxOps + 2)
 VARIABLES slot, heap, model, nblk, err, stream, ops, view
 vars == <<slot, heap, model, nblk, err, stream, ops, view>>
 
-Dead == [st |-> "dead", ty |-> "none", ext |-> <<>>, blk |-> NullBlk, size |-> 0]
+\* `lin' is a ghost carried by every field object: the last LinK storage sizes the object - or the objects it was copied or
+\* moved from - has had.  No action reads it.  It travels the way an implementation's private members travel (copied by copy
+\* construction, taken by the moves, retained by the target of a copy assignment), so with LinK > 0 TLC distinguishes, and
+\* emits a witness behaviour for, states that differ only in HOW an object came to its present value: "was larger before",
+\* "copy of an object that was larger before", ... - the histories on which stale sizes, reused buffers or capacities matter.
+Dead == [st |-> "dead", ty |-> "none", ext |-> <<>>, blk |-> NullBlk, size |-> 0, lin |-> <<>>]
+LastK(a) == IF Len(a) <= LinK THEN a ELSE SubSeq(a, Len(a) - LinK + 1, Len(a))
+LinCat(ld, ls) == IF LinK = 0 THEN <<>> ELSE LastK(ld \o ls)       \* an assignment: what the target had, then what the source brings
+Lin(l, n) == IF LinK = 0 THEN <<>> ELSE LET a == Append(l, n) IN IF Len(a) <= LinK THEN a ELSE SubSeq(a, Len(a) - LinK + 1, Len(a))
 Live(s) == slot[s].st = "live"
 Assignable(s) == slot[s].st \in {"live", "moved", "unspec"}
 ZeroCells(n) == [i \in 0..(n - 1) |-> 0]
@@ -53,6 +63,10 @@ IdxOf(ty, e, c) == Idx(ty, e, c, WM)
 NoView == [st |-> "none", blk |-> NullBlk, ty |-> "none", ext |-> <<>>, from |-> 0]
 KeepViews(B) == view' = [v \in ViewIds |-> IF view[v].blk \in B THEN NoView ELSE view[v]]
 OwnerOf(b) == CHOOSE s \in Slots : slot[s].blk = b
+
+\* slots are interchangeable (no action depends on a slot's number), so every behaviour has an equivalent one in which new
+\* objects always go to the lowest-numbered dead slot; generation configurations may restrict themselves to those
+FreshOK(d) == Canon => \A t \in Slots : t < d => slot[t].st # "dead"
 
 Init == /\ view = [v \in ViewIds |-> NoView]
         /\ slot = [s \in Slots |-> Dead]
@@ -74,11 +88,11 @@ Bump(b) == nblk' = IF Unbounded THEN nblk ELSE b
 \* ------------------------------------------------------------ operations
 \* field(parameter_pack): configuration + freshly allocated, zeroed storage of the size the layer needs
 Construct(s, ty, e) ==
-  /\ slot[s].st = "dead" /\ Applicable(ty, e) /\ Tick
+  /\ slot[s].st = "dead" /\ FreshOK(s) /\ Applicable(ty, e) /\ Tick
   /\ LET b == NewBlk  n == StorageSize(ty, e) IN
        /\ Bump(b)
        /\ heap' = Alloc(heap, b, n)
-       /\ slot' = [slot EXCEPT ![s] = [st |-> "live", ty |-> ty, ext |-> e, blk |-> b, size |-> n]]
+       /\ slot' = [slot EXCEPT ![s] = [st |-> "live", ty |-> ty, ext |-> e, blk |-> b, size |-> n, lin |-> Lin(<<>>, n)]]
        /\ model' = [model EXCEPT ![s] = [c \in Box(e) |-> 0]]
   /\ UNCHANGED <<err, stream>>
   /\ KeepViews({})
@@ -96,7 +110,7 @@ Write(s, c, v) ==
 
 \* array::owning_data_t(const owning_data_t &): m_size(o.m_size), m_ptr(make_unique(m_size)), memcpy
 CopyCtor(d, s) ==
-  /\ slot[d].st = "dead" /\ Live(s) /\ d # s /\ Tick
+  /\ slot[d].st = "dead" /\ FreshOK(d) /\ Live(s) /\ d # s /\ Tick
   /\ LET b == NewBlk IN
        /\ Bump(b)
        /\ heap' = [Alloc(heap, b, slot[s].size) EXCEPT ![b].cells = heap[slot[s].blk].cells]
@@ -107,7 +121,7 @@ CopyCtor(d, s) ==
 
 \* defaulted move: the unique_ptr is taken, the source keeps its (stale) size and a null pointer
 MoveCtor(d, s) ==
-  /\ slot[d].st = "dead" /\ Live(s) /\ d # s /\ Tick
+  /\ slot[d].st = "dead" /\ FreshOK(d) /\ Live(s) /\ d # s /\ Tick
   /\ slot' = [slot EXCEPT ![d] = slot[s], ![s] = [slot[s] EXCEPT !.st = "moved", !.blk = NullBlk]]
   /\ model' = [model EXCEPT ![d] = model[s], ![s] = <<>>]
   /\ UNCHANGED <<heap, nblk, err, stream>>
@@ -123,7 +137,7 @@ CopyAssign(d, s) ==
      IN /\ Bump(b)
         /\ err' = IF FreeErr(h1, slot[d].blk) # "" THEN FreeErr(h1, slot[d].blk) ELSE err
         /\ heap' = [h2 EXCEPT ![b].cells = h2[slot[s].blk].cells]
-        /\ slot' = [slot EXCEPT ![d] = [slot[s] EXCEPT !.blk = b]]
+        /\ slot' = [slot EXCEPT ![d] = [slot[s] EXCEPT !.blk = b, !.lin = LinCat(slot[d].lin, slot[s].lin)]]
         /\ model' = [model EXCEPT ![d] = model[s]]
   /\ UNCHANGED stream
   /\ KeepViews({slot[d].blk})
@@ -147,7 +161,7 @@ MoveAssign(d, s) ==
   /\ Assignable(d) /\ Live(s) /\ d # s /\ slot[d].ty = slot[s].ty /\ Len(slot[d].ext) = Len(slot[s].ext) /\ Tick
   /\ err' = IF FreeErr(heap, slot[d].blk) # "" THEN FreeErr(heap, slot[d].blk) ELSE err
   /\ heap' = FreeOf(heap, slot[d].blk)
-  /\ slot' = [slot EXCEPT ![d] = slot[s], ![s] = [slot[s] EXCEPT !.st = "moved", !.blk = NullBlk]]
+  /\ slot' = [slot EXCEPT ![d] = [slot[s] EXCEPT !.lin = LinCat(slot[d].lin, slot[s].lin)], ![s] = [slot[s] EXCEPT !.st = "moved", !.blk = NullBlk]]
   /\ model' = [model EXCEPT ![d] = model[s], ![s] = <<>>]
   /\ UNCHANGED <<nblk, stream>>
   /\ KeepViews({slot[d].blk})
@@ -171,7 +185,7 @@ Convert(d, s, ty2) ==
          Step(cells, c) == [cells EXCEPT ![IdxOf(ty2, e, c)] = src[IdxOf(slot[s].ty, e, c)]]
      IN /\ Bump(b)
         /\ heap' = [Alloc(heap, b, n) EXCEPT ![b].cells = FoldLeft(Step, ZeroCells(n), order)]
-        /\ slot' = [slot EXCEPT ![d] = [st |-> "live", ty |-> ty2, ext |-> e, blk |-> b, size |-> n]]
+        /\ slot' = [slot EXCEPT ![d] = [st |-> "live", ty |-> ty2, ext |-> e, blk |-> b, size |-> n, lin |-> Lin(<<>>, n)]]
         /\ model' = [model EXCEPT ![d] = model[s]]
   /\ UNCHANGED <<err, stream>>
   /\ KeepViews({})
@@ -187,7 +201,7 @@ ConvertMove(d, s, ty2) ==
          Step(cells, c) == [cells EXCEPT ![IdxOf(ty2, e, c)] = src[IdxOf(slot[s].ty, e, c)]]
      IN /\ Bump(b)
         /\ heap' = [Alloc(heap, b, n) EXCEPT ![b].cells = FoldLeft(Step, ZeroCells(n), Visits(e))]
-        /\ slot' = [slot EXCEPT ![d] = [st |-> "live", ty |-> ty2, ext |-> e, blk |-> b, size |-> n], ![s].st = "unspec"]
+        /\ slot' = [slot EXCEPT ![d] = [st |-> "live", ty |-> ty2, ext |-> e, blk |-> b, size |-> n, lin |-> Lin(<<>>, n)], ![s].st = "unspec"]
         /\ model' = [model EXCEPT ![d] = model[s], ![s] = <<>>]
   /\ UNCHANGED <<err, stream>>
   /\ KeepViews({slot[s].blk})
@@ -195,7 +209,7 @@ ConvertMove(d, s, ty2) ==
 \* field<T>(): a default-constructed field has no specified contents; it can be assigned to and destroyed
 DefaultConstruct(s, ty, n) ==
   /\ slot[s].st = "dead" /\ (ty # "hilbert" \/ n = 2) /\ Tick
-  /\ slot' = [slot EXCEPT ![s] = [st |-> "unspec", ty |-> ty, ext |-> [k \in 1..n |-> 0], blk |-> NullBlk, size |-> 0]]
+  /\ slot' = [slot EXCEPT ![s] = [st |-> "unspec", ty |-> ty, ext |-> [k \in 1..n |-> 0], blk |-> NullBlk, size |-> 0, lin |-> <<>>]]
   /\ UNCHANGED <<heap, model, nblk, err, stream>>
   /\ KeepViews({})
 
@@ -212,7 +226,7 @@ Load(d) ==
   /\ LET b == NewBlk IN
        /\ Bump(b)
        /\ heap' = [Alloc(heap, b, stream.size) EXCEPT ![b].cells = stream.cells]
-       /\ slot' = [slot EXCEPT ![d] = [st |-> "live", ty |-> stream.ty, ext |-> stream.ext, blk |-> b, size |-> stream.size]]
+       /\ slot' = [slot EXCEPT ![d] = [st |-> "live", ty |-> stream.ty, ext |-> stream.ext, blk |-> b, size |-> stream.size, lin |-> Lin(<<>>, stream.size)]]
        /\ model' = [model EXCEPT ![d] = [c \in Box(stream.ext) |-> stream.cells[IdxOf(stream.ty, stream.ext, c)]]]
   /\ UNCHANGED <<err, stream>>
   /\ KeepViews({})
@@ -250,6 +264,7 @@ WriteView(v, c, val) ==
 
 AllOps == {"Construct", "Write", "CopyCtor", "MoveCtor", "CopyAssign", "MoveAssign", "Convert", "ConvertMove", "DefaultConstruct", "Dump", "Load", "Destroy"}
 BasicOps == AllOps \ {"ConvertMove", "DefaultConstruct"}
+LineageOps == {"Construct", "CopyCtor", "MoveCtor", "CopyAssign", "MoveAssign", "Destroy"}
 ViewOps == {"Construct", "Write", "CopyCtor", "MoveCtor", "CopyAssign", "MoveAssign", "Destroy"}
 CoreOps == {"Construct", "Write", "CopyCtor", "MoveCtor", "CopyAssign", "MoveAssign", "Convert", "Destroy"}
 ConvOps == {"Construct", "Write", "Convert", "ConvertMove"}
@@ -323,6 +338,7 @@ TypesA == {"strided", "morton"}
 TypesB == {"strided", "morton", "hilbert", "morton_portable"}
 ExtOne == {<<2, 1>>}
 Ext1 == {<<2>>, <<3>>}
+TypesS == {"strided"}
 Ext2 == {<<2, 1>>, <<1, 3>>}
 Ext12 == {<<2>>, <<2, 2>>}
 Ext2b == {<<2, 2>>, <<3, 2>>, <<1, 3>>}
